@@ -324,7 +324,10 @@ def orders_case(case, res):
             ok = True
             for r, g in zip(refs, result):
                 eps = float(np.finfo(r.dtype).eps) if r.dtype.kind in "fc" else 0
-                if g.shape != r.shape or (r.size and float(np.nanmax(np.abs(g - r))) > 8 * eps * max(1.0, float(np.nanmax(np.abs(r))))):
+                if r.dtype.kind == "b":
+                    if g.shape != r.shape or g.dtype != r.dtype or not np.array_equal(g, r):
+                        ok = False
+                elif g.shape != r.shape or (r.size and float(np.nanmax(np.abs(g - r))) > 8 * eps * max(1.0, float(np.nanmax(np.abs(r))))):
                     ok = False
             if not ok:
                 res.violation(f"orders|{name}|order-dependent result", f"a task order gives a result different from the NumPy path",
